@@ -195,10 +195,18 @@ def run_case(case):
             if over.any():
                 r.count("ulp_overshoot_clamped", int(over.sum()))
                 xi_ = torch.where(over, xi_.clamp(lo_, hi_), xi_)
+        if x_true is not None and tuple(xi_.shape) != tuple(x_true.shape):
+            r.viol("shape", "%s inverse(forward(x)) does not have the shape of x" % fam, got=list(xi_.shape),
+                   expected=list(x_true.shape), policy=pol, cfg=cfg)
+            continue
         fw2 = call(model.forward, xi_, "forward_of_inverse")
         if fw2 is None:
             continue
         y2, lad_f2 = fw2
+        if tuple(y2.shape) != tuple(yy.shape):
+            r.viol("shape", "%s forward(inverse(y)) does not have the shape of y" % fam, got=list(y2.shape),
+                   expected=list(yy.shape), policy=pol, cfg=cfg)
+            continue
         if not _finite(y2, lad_f2):
             emit(r, "nonfinite", "%s forward(inverse(y)) returns non-finite numbers" % fam, cubic_nu, policy=pol,
                  world=world, cfg=cfg)
